@@ -6,6 +6,22 @@ Import ListNotations.
 From Cffi Require Import C33.Spec C33.Gen C33.Model C33.Proofs C12.Gen C12.Model C12.Proofs2.
 Local Open Scope Z_scope.
 
+(* SCOPE.  The property's main clause — "the library returned by ffi.verify(), with either engine,
+   exposes the same functions, global variables, constants and struct layouts, with the same
+   call results and conversion errors, as the set_source() module" — is an equality of two
+   compiled artefacts and is DECIDED BY THE CORRESPONDENCE RUN ONLY (tools/props/c33.py: three
+   builds per case, all observations compared).  What is proved here are the mechanisms on which
+   that equality rests and which can be stated over all values:
+     - integer argument conversion of the CPython engine = the type's range semantics, for all
+       Python ints (C33_to_c_int_range), and set_source() modules reach the same backend
+       converters (C33_include_same_as_vengine);
+     - integer result conversion (C33_from_c_int_id);
+     - struct layout acceptance and result of both routes (C33_struct_routes_agree,
+       C33_partial_same_call, C33_partial_size_mismatch).
+   Not modelled at all (correspondence only): the generic engine's conversions (libffi call
+   path of the backend, properties C03/C13), function results, global variables, constants,
+   non-integer conversions and TypeError cases. *)
+
 (* integer arguments, CPython engine: for every C integer type of 1, 2, 4 or 8 bytes, signed or
    unsigned, and EVERY Python int v: the generated conversion accepts v iff v is in the range
    of the type (the backend's integer range semantics), passes it unchanged, and raises
@@ -16,7 +32,13 @@ Theorem C33_to_c_int_range : forall size signed v,
 Proof. exact vengine_to_c_int_range. Qed.
 Print Assumptions C33_to_c_int_range.
 
-(* modules built by set_source() convert with the same function *)
+(* modules built by set_source() convert with the same function.  The two sides are NOT one
+   definition: [vengine_to_c_int] is [to_c_int_with] applied to the dispatch and export-index
+   tables regenerated from the header text inside src/cffi/vengine_cpy.py, [include_to_c_int]
+   is the same interpreter applied to the tables regenerated from src/cffi/_cffi_include.h
+   (the Gen.vengine_ tables versus the Gen.include_ tables).  The proof is by computation because the two regenerated
+   tables coincide today; if either header changes, Gen.v changes and this theorem (or
+   C33_to_c_int_range) stops checking. *)
 Theorem C33_include_same_as_vengine : forall size signed v,
   include_to_c_int size signed v = vengine_to_c_int size signed v.
 Proof. exact include_same_as_vengine. Qed.
